@@ -82,7 +82,7 @@ ALPHABET = [
     "a", " ", "\t", "\n", "'", '"', "\\", "$", "~", "*", "?", "[", "]", "{", "}", "(", ")",
     "&", "|", ";", "<", ">", "!", "#", "=", "-", ",", "@", "é", "\U0001f642",
 ]  # fmt: skip
-PROBES = ["$V", "~", "~/x", "a=~", "${V}", "*.py", "a b", "it's"]
+PROBES = ["$V", "~", "~/x", "a=~", "${V}", "*.py", "a b", "it's", "@path"]  # "@path" = the name of a built-in decorator alias, as an ARGUMENT (quoted or injected)
 
 CLASS = {
     "a": "alpha", " ": "space", "\t": "tab", "\n": "newline", "'": "squote", '"': "dquote",
